@@ -1,8 +1,356 @@
-//! C02 observations (see props/c02.py for the consumer).
+//! C02 observations: CrystalSetup::index_along / to_crystal_frame / Beam::refractive_index / Beam::walkoff_angle on
+//! structured inputs (see props/c02.py for the consumer).
+//!
+//! usage: vharness c02 <seed> <n_dir> <n_walk>
+//!   kind "idx":  one (crystal, wavelength, temperature, crystal angles, lab direction) with both polarizations,
+//!                the principal indices the crystal reports there, and the rotated direction
+//!   kind "beam": Beam::refractive_index against index_along on the beam's own direction / wavelength
+//!   kind "walk": Beam::walkoff_angle (or the panic it raised)
 #![allow(unused_imports, dead_code)]
 use crate::common::*;
-use serde_json::json;
+use serde_json::{json, Value};
+use spdcalc::dim::ucum::{K, M, RAD};
+use spdcalc::na::{Rotation3, Unit, Vector3};
+use spdcalc::utils::{from_celsius_to_kelvin, frequency_to_vacuum_wavelength};
+use spdcalc::*;
+use std::f64::consts::PI;
 
-pub fn run(_args: &[String]) {
-  emit(json!({"kind": "not_implemented", "property": "C02"}));
+const SCALES: [f64; 8] = [1e-2, 1e-3, 1e-4, 1e-5, 1e-6, 1e-7, 1e-8, 1e-9];
+
+fn setup_of(crystal: &CrystalType, theta: f64, phi: f64, t_c: f64) -> CrystalSetup {
+  CrystalSetup {
+    crystal: crystal.clone(),
+    pm_type: PMType::Type2_e_eo,
+    theta: theta * RAD,
+    phi: phi * RAD,
+    length: 2e-3 * M,
+    temperature: from_celsius_to_kelvin(t_c),
+    counter_propagation: false,
+  }
+}
+
+fn v3(v: &Vector3<f64>) -> Value {
+  json!([fx(v.x), fx(v.y), fx(v.z)])
+}
+
+fn pol_name(p: PolarizationType) -> &'static str {
+  match p {
+    PolarizationType::Ordinary => "o",
+    PolarizationType::Extraordinary => "e",
+  }
+}
+
+struct Case<'a> {
+  id: &'a str,
+  crystal: &'a CrystalType,
+  w: f64,
+  t_c: f64,
+  ct: f64,
+  cp: f64,
+}
+
+fn emit_idx(c: &Case, d: Vector3<f64>, gen: &str, group: u64, rel: &str) {
+  let setup = setup_of(c.crystal, c.ct, c.cp, c.t_c);
+  let dir = Unit::new_unchecked(d);
+  let ind = *setup.crystal.get_indices(c.w * M, setup.temperature);
+  let s = setup.to_crystal_frame(dir);
+  // the reciprocal squares exactly as index_along forms them (same expression, same compiler)
+  let a = ind.map(|i| i.powi(-2));
+  let no = guarded(|| *setup.index_along(c.w * M, dir, PolarizationType::Ordinary));
+  let ne = guarded(|| *setup.index_along(c.w * M, dir, PolarizationType::Extraordinary));
+  emit(json!({
+    "kind": "idx", "id": c.id, "w": fx(c.w), "tc": fx(c.t_c), "ct": fx(c.ct), "cp": fx(c.cp),
+    "n": [fx(ind.x), fx(ind.y), fx(ind.z)], "a": v3(&a), "d": v3(&d), "s": v3(&s.into_inner()),
+    "no": no.as_ref().map(|x| fx(*x)).unwrap_or(Value::Null), "ne": ne.as_ref().map(|x| fx(*x)).unwrap_or(Value::Null),
+    "panic": no.as_ref().err().or(ne.as_ref().err()).cloned(),
+    "gen": gen, "group": group, "rel": rel,
+  }));
+}
+
+/// lab direction whose image under the crystal rotation is (as nearly as binary64 allows) `s`
+fn lab_of(ct: f64, cp: f64, s: Vector3<f64>) -> Vector3<f64> {
+  let r = Rotation3::from_euler_angles(0., ct, cp);
+  (r.inverse() * s).normalize()
+}
+
+fn rand_unit(rng: &mut Rng) -> Vector3<f64> {
+  let z = rng.range(-1.0, 1.0);
+  let a = rng.range(0.0, 2.0 * PI);
+  let r = (1.0 - z * z).max(0.0).sqrt();
+  Vector3::new(r * a.cos(), r * a.sin(), z).normalize()
+}
+
+/// the optic axes (wave-normal directions with a double root) in the crystal frame, from the principal indices
+fn optic_axes(ind: &Vector3<f64>) -> Vec<Vector3<f64>> {
+  let a = [ind.x.powi(-2), ind.y.powi(-2), ind.z.powi(-2)];
+  let mut order = [0usize, 1, 2];
+  order.sort_by(|i, j| a[*i].partial_cmp(&a[*j]).unwrap());
+  let (lo, mid, hi) = (order[0], order[1], order[2]);
+  if a[hi] == a[lo] {
+    return vec![];
+  }
+  // p_hi = (a_hi - a_mid)/(a_hi - a_lo) on the axis of the largest a, p_lo = (a_mid - a_lo)/(a_hi - a_lo) on the smallest
+  let p_hi = (a[hi] - a[mid]) / (a[hi] - a[lo]);
+  let p_lo = (a[mid] - a[lo]) / (a[hi] - a[lo]);
+  let mut out = vec![];
+  for sg in [1.0, -1.0] {
+    let mut v = [0.0; 3];
+    v[hi] = p_hi.sqrt();
+    v[lo] = sg * p_lo.sqrt();
+    out.push(Vector3::new(v[0], v[1], v[2]).normalize());
+    if p_hi == 0.0 || p_lo == 0.0 {
+      break;
+    }
+  }
+  out
+}
+
+/// unit vector at angular distance `delta` from unit vector `ax`, azimuth `az` around it
+fn ring(ax: &Vector3<f64>, delta: f64, az: f64) -> Vector3<f64> {
+  let helper = if ax.x.abs() < 0.9 { Vector3::x() } else { Vector3::y() };
+  let e1 = ax.cross(&helper).normalize();
+  let e2 = ax.cross(&e1).normalize();
+  (ax * delta.cos() + (e1 * az.cos() + e2 * az.sin()) * delta.sin()).normalize()
+}
+
+fn with_symmetries(c: &Case, d: Vector3<f64>, gen: &str, group: &mut u64, sym: bool) {
+  *group += 1;
+  emit_idx(c, d, gen, *group, "base");
+  if !sym {
+    return;
+  }
+  emit_idx(c, -d, gen, *group, "neg");
+  // mirror images in the principal planes: flip one crystal-frame component, map back to the lab frame
+  let setup = setup_of(c.crystal, c.ct, c.cp, c.t_c);
+  let s = setup.to_crystal_frame(Unit::new_unchecked(d)).into_inner();
+  for (k, name) in ["mx", "my", "mz"].iter().enumerate() {
+    let mut m = s;
+    m[k] = -m[k];
+    emit_idx(c, lab_of(c.ct, c.cp, m), gen, *group, name);
+  }
+}
+
+fn emit_walk(c: &Case, pol: PolarizationType, bphi: f64, btheta: f64, gen: &str) {
+  let setup = setup_of(c.crystal, c.ct, c.cp, c.t_c);
+  let beam = beam::Beam::new(pol, bphi * RAD, btheta * RAD, c.w * M, 100e-6 * M);
+  let ind = *setup.crystal.get_indices(beam.vacuum_wavelength(), setup.temperature);
+  let d = beam.direction().into_inner();
+  let n = guarded(|| *beam.refractive_index(beam.frequency(), &setup));
+  let rho = guarded(|| *(beam.walkoff_angle(&setup) / RAD));
+  emit(json!({
+    "kind": "walk", "id": c.id, "w": fx(c.w), "weff": fx(*(beam.vacuum_wavelength() / M)), "tc": fx(c.t_c),
+    "ct": fx(c.ct), "cp": fx(c.cp), "pol": pol_name(pol), "bphi": fx(bphi), "btheta": fx(btheta),
+    "n": [fx(ind.x), fx(ind.y), fx(ind.z)], "d": v3(&d),
+    "nb": n.as_ref().map(|x| fx(*x)).unwrap_or(Value::Null),
+    "rho": rho.as_ref().map(|x| fx(*x)).unwrap_or(Value::Null),
+    "panic": rho.as_ref().err().cloned(), "gen": gen,
+  }));
+}
+
+fn emit_beam(c: &Case, pol: PolarizationType, bphi: f64, btheta: f64) {
+  let setup = setup_of(c.crystal, c.ct, c.cp, c.t_c);
+  let beam = beam::Beam::new(pol, bphi * RAD, btheta * RAD, c.w * M, 100e-6 * M);
+  let weff = frequency_to_vacuum_wavelength(beam.frequency());
+  let nb = *beam.refractive_index(beam.frequency(), &setup);
+  let ni = *setup.index_along(weff, beam.direction(), pol);
+  // index at another frequency: the wrapper must convert that frequency, not the beam's own
+  let om2 = beam.frequency() * 1.25;
+  let nb2 = *beam.refractive_index(om2, &setup);
+  let ni2 = *setup.index_along(frequency_to_vacuum_wavelength(om2), beam.direction(), pol);
+  emit(json!({
+    "kind": "beam", "id": c.id, "w": fx(c.w), "ct": fx(c.ct), "cp": fx(c.cp), "pol": pol_name(pol),
+    "bphi": fx(bphi), "btheta": fx(btheta), "nb": fx(nb), "ni": fx(ni), "nb2": fx(nb2), "ni2": fx(ni2),
+    "d": v3(&beam.direction().into_inner()),
+  }));
+}
+
+fn hexf(s: &str) -> f64 {
+  f64::from_bits(u64::from_str_radix(s.trim_start_matches("0x"), 16).unwrap_or(0))
+}
+
+/// vharness c02 replay idx <crystal> <w> <tc> <ct> <cp> <dx> <dy> <dz>      (floats as 0x… bit patterns)
+/// vharness c02 replay walk <crystal> <w> <tc> <ct> <cp> <o|e> <bphi> <btheta>
+fn replay(args: &[String]) {
+  if args.len() < 7 {
+    return;
+  }
+  let crystal = match CrystalType::from_string(&args[1]) {
+    Ok(c) => c,
+    Err(_) => return,
+  };
+  let meta = crystal.get_meta();
+  let uniaxial = matches!(meta.axis_type, OpticAxisType::PositiveUniaxial | OpticAxisType::NegativeUniaxial);
+  emit(json!({"kind": "crystal", "id": meta.id, "axis": format!("{:?}", meta.axis_type), "uniaxial": uniaxial, "lo": fx(0.), "hi": fx(0.)}));
+  let c = Case { id: meta.id, crystal: &crystal, w: hexf(&args[2]), t_c: hexf(&args[3]), ct: hexf(&args[4]), cp: hexf(&args[5]) };
+  if args[0] == "idx" && args.len() >= 9 {
+    emit_idx(&c, Vector3::new(hexf(&args[6]), hexf(&args[7]), hexf(&args[8])), "replay", 1, "base");
+  } else if args[0] == "walk" && args.len() >= 9 {
+    let pol = if args[6] == "o" { PolarizationType::Ordinary } else { PolarizationType::Extraordinary };
+    emit_walk(&c, pol, hexf(&args[7]), hexf(&args[8]), "orient");
+  }
+}
+
+pub fn run(args: &[String]) {
+  if args.first().map(|s| s == "replay").unwrap_or(false) {
+    replay(&args[1..]);
+    return;
+  }
+  let seed = arg_u64(args, 0, 1);
+  let n_dir = arg_u64(args, 1, 4) as usize;
+  let n_walk = arg_u64(args, 2, 4) as usize;
+  let mut rng = Rng::new(seed);
+  let mut group = 0u64;
+  let pols = [PolarizationType::Ordinary, PolarizationType::Extraordinary];
+  for meta in CrystalType::get_all_meta().iter() {
+    let crystal = match CrystalType::from_string(meta.id) {
+      Ok(c) => c,
+      Err(_) => continue,
+    };
+    // in-window wavelengths: the declared window clipped to 0.2–12 um (C01 owns the window itself)
+    let (lo, hi) = match meta.transmission_range {
+      Some(r) if r.0 > 1e-8 && r.1 > r.0 => (r.0, r.1),
+      _ => (0.5e-6, 1.6e-6),
+    };
+    let uniaxial = matches!(
+      meta.axis_type,
+      OpticAxisType::PositiveUniaxial | OpticAxisType::NegativeUniaxial
+    );
+    emit(json!({"kind": "crystal", "id": meta.id, "axis": format!("{:?}", meta.axis_type), "uniaxial": uniaxial,
+                "lo": fx(lo), "hi": fx(hi)}));
+    let mut new_case = |rng: &mut Rng| -> (f64, f64, f64, f64) {
+      let w = rng.range(lo + 0.02 * (hi - lo), hi - 0.02 * (hi - lo));
+      let t_c = if rng.coin() { 20.0 } else { rng.range(-50.0, 200.0) };
+      let ct = rng.range(-PI, PI);
+      let cp = rng.range(0.0, 2.0 * PI);
+      (w, t_c, ct, cp)
+    };
+    // ---- (1) uniform directions, random orientation, with the symmetric images
+    for i in 0..n_dir {
+      let (w, t_c, ct, cp) = new_case(&mut rng);
+      let c = Case { id: meta.id, crystal: &crystal, w, t_c, ct, cp };
+      let d = rand_unit(&mut rng);
+      with_symmetries(&c, d, "rand", &mut group, i % 2 == 0);
+    }
+    // ---- (2) pump along lab z: the rotated direction must be the crystal's polar direction
+    for _ in 0..2.max(n_dir / 4) {
+      let (w, t_c, ct, cp) = new_case(&mut rng);
+      let c = Case { id: meta.id, crystal: &crystal, w, t_c, ct, cp };
+      with_symmetries(&c, Vector3::z(), "pump", &mut group, false);
+    }
+    // ---- (3) rings around the optic axes (crystal frame), mapped back to the lab frame
+    for (k, delta) in SCALES.iter().enumerate() {
+      let reps = 1.max(n_dir / 4);
+      for r in 0..reps {
+        let (w, t_c, ct, cp) = new_case(&mut rng);
+        let c = Case { id: meta.id, crystal: &crystal, w, t_c, ct, cp };
+        let setup = setup_of(&crystal, ct, cp, t_c);
+        let ind = *setup.crystal.get_indices(w * M, setup.temperature);
+        let axes = optic_axes(&ind);
+        if axes.is_empty() {
+          continue;
+        }
+        let ax = axes[(k + r) % axes.len()] * (if rng.coin() { 1.0 } else { -1.0 });
+        let s = ring(&ax, *delta, rng.range(0.0, 2.0 * PI));
+        with_symmetries(&c, lab_of(ct, cp, s), &format!("axis:{:e}", delta), &mut group, r == 0 && k % 3 == 0);
+      }
+    }
+    // ---- (4) natural near-axis configurations: pump along z, crystal tilted by (optic-axis angle ± delta), and a beam at a
+    //          small polar angle in an untilted uniaxial crystal
+    for delta in SCALES.iter() {
+      let (w, t_c, _ct, _cp) = new_case(&mut rng);
+      let setup = setup_of(&crystal, 0., 0., t_c);
+      let ind = *setup.crystal.get_indices(w * M, setup.temperature);
+      let axes = optic_axes(&ind);
+      for ax in axes.iter() {
+        // polar angles of the axis in the crystal frame
+        let th = ax.z.clamp(-1., 1.).acos();
+        let ph = ax.y.atan2(ax.x);
+        for sg in [1.0, -1.0] {
+          let c = Case { id: meta.id, crystal: &crystal, w, t_c, ct: th + sg * delta, cp: ph };
+          with_symmetries(&c, Vector3::z(), &format!("tilt:{:e}", delta), &mut group, false);
+        }
+      }
+      if uniaxial {
+        let c = Case { id: meta.id, crystal: &crystal, w, t_c, ct: 0., cp: 0. };
+        let a = rng.range(0.0, 2.0 * PI);
+        let d = Vector3::new(delta.sin() * a.cos(), delta.sin() * a.sin(), delta.cos()).normalize();
+        with_symmetries(&c, d, &format!("beam:{:e}", delta), &mut group, false);
+      }
+    }
+    // exactly on the axes of an untilted crystal, and on the optic axis of a uniaxial one
+    {
+      let (w, t_c, _, _) = new_case(&mut rng);
+      let c = Case { id: meta.id, crystal: &crystal, w, t_c, ct: 0., cp: 0. };
+      for d in [Vector3::x(), Vector3::y(), Vector3::z(), -Vector3::z()] {
+        with_symmetries(&c, d, "exact", &mut group, false);
+      }
+    }
+    // ---- (5) rings around the principal planes
+    for (k, delta) in SCALES.iter().enumerate() {
+      for r in 0..1.max(n_dir / 8) {
+        let (w, t_c, ct, cp) = new_case(&mut rng);
+        let c = Case { id: meta.id, crystal: &crystal, w, t_c, ct, cp };
+        let mut s = rand_unit(&mut rng);
+        let which = (k + r) % 3;
+        s[which] = 0.0;
+        let mut s = s.normalize() * delta.cos();
+        s[which] = delta.sin() * (if rng.coin() { 1.0 } else { -1.0 });
+        with_symmetries(&c, lab_of(ct, cp, s.normalize()), &format!("plane{}:{:e}", ["x", "y", "z"][which], delta), &mut group,
+                        r == 0 && k % 4 == 0);
+      }
+    }
+    // ---- (6) Beam::refractive_index is index_along on the beam's direction and the given frequency
+    for _ in 0..2.max(n_dir / 4) {
+      let (w, t_c, ct, cp) = new_case(&mut rng);
+      let c = Case { id: meta.id, crystal: &crystal, w, t_c, ct, cp };
+      let pol = *rng.pick(&pols);
+      emit_beam(&c, pol, rng.range(0.0, 2.0 * PI), rng.range(-PI, PI));
+    }
+    // ---- (7) walk-off
+    for i in 0..n_walk {
+      let (w, t_c, _, cp) = new_case(&mut rng);
+      for pol in pols {
+        // pump along z, optic axis 12°..90° from the beam (both signs of the crystal angle)
+        let deg = match i {
+          0 => 12.0,
+          1 => 90.0,
+          2 => 45.0,
+          _ => rng.range(12.0, 90.0),
+        };
+        let sg = if i % 3 == 2 { -1.0 } else { 1.0 };
+        let c = Case { id: meta.id, crystal: &crystal, w, t_c, ct: sg * deg * PI / 180., cp };
+        emit_walk(&c, pol, 0., 0., "pump");
+        // a beam in the x-z plane (azimuth 0 or pi) and a general beam
+        let c = Case { id: meta.id, crystal: &crystal, w, t_c, ct: rng.range(0.25, 1.3), cp };
+        emit_walk(&c, pol, if rng.coin() { 0. } else { PI }, rng.range(0.0, 0.2), "inplane");
+        emit_walk(&c, pol, rng.range(0.0, 2.0 * PI), rng.range(-0.3, 0.3), "general");
+      }
+    }
+    // every orientation: crystal angle 0, tiny, negative, beyond 90°, and near the optic axes
+    {
+      let (w, t_c, _, cp) = new_case(&mut rng);
+      let setup = setup_of(&crystal, 0., 0., t_c);
+      let ind = *setup.crystal.get_indices(w * M, setup.temperature);
+      let axes = optic_axes(&ind);
+      let mut cts: Vec<(f64, f64)> = vec![(0., cp), (PI / 2., cp), (-PI / 2., cp), (PI, cp), (2.5, cp), (-3.0, cp), (7.0, cp)];
+      for delta in SCALES.iter() {
+        cts.push((*delta, cp));
+        for ax in axes.iter() {
+          let th = ax.z.clamp(-1., 1.).acos();
+          let ph = ax.y.atan2(ax.x);
+          cts.push((th + delta, ph));
+          cts.push((th - delta, ph));
+        }
+      }
+      for _ in 0..n_walk {
+        cts.push((rng.range(-PI, PI), rng.range(0.0, 2.0 * PI)));
+      }
+      for (ct, cph) in cts {
+        for pol in pols {
+          let c = Case { id: meta.id, crystal: &crystal, w, t_c, ct, cp: cph };
+          emit_walk(&c, pol, 0., 0., "orient");
+        }
+      }
+    }
+  }
 }
